@@ -295,6 +295,7 @@ func main() {
 		for _, n := range names {
 			nok, nbad := 0, 0
 			var first *SolveResult
+			isRet := byName[n][0].Obl.Kind == "vacuity" && byName[n][0].Obl.Label == "return"
 			for _, r := range byName[n] {
 				ok := r.Status == r.Obl.Expect || (r.Obl.Expect == "sat" && r.Status == "unknown")
 				if ok {
@@ -306,7 +307,7 @@ func main() {
 					}
 				}
 			}
-			if nbad == 0 {
+			if nbad == 0 || (isRet && nok > 0) {
 				fmt.Printf("ok   %-80s paths=%d\n", n, nok)
 				continue
 			}
@@ -361,6 +362,7 @@ func main() {
 			rs := byName[n]
 			nObl++
 			okAll := true
+			anyOK := false
 			var bad *SolveResult
 			t := 0.0
 			for _, r := range rs {
@@ -374,7 +376,12 @@ func main() {
 					if bad == nil || (bad.Status != "sat" && r.Status == "sat") {
 						bad = r
 					}
+				} else {
+					anyOK = true
 				}
+			}
+			if rs[0].Obl.Kind == "vacuity" && rs[0].Obl.Label == "return" && anyOK {
+				okAll = true // one feasible return path is enough
 			}
 			slowest = append(slowest, slow{n, t})
 			if okAll {
